@@ -24,6 +24,37 @@ def sequencing_runs(tier, seed, tail):
 SEQ_RESULTS = []
 
 
+def conciliation_and_replica_runs(tier, seed, tail):
+    """The conciliation scenarios (C05) and the process-activity runs under random schedulers (C12: joins, crashes,
+    restarts, partitions while processes change state) are also C16 runs: judged here on NoInternalError only."""
+    import random
+    import vlib
+    import c05
+    import c12
+    v = vlib.Verdict('C16', tier, seed)
+    rnd = random.Random(seed * 6007 + 16)
+    scs = c05.directed(tier)
+    if tier == 'quick':
+        scs = scs[::2]
+    scs += [c05.gen_random(rnd) for _ in range(15 if tier == 'quick' else 600)]
+    n_tr, n_st = 0, 0
+    for lo in range(0, len(scs), 300):
+        part = scs[lo:lo + 300]
+        traces = c05.run_scenarios(part)
+        c05.judge(v, traces, part, labels={'C16.NoInternalError'})
+        n_tr += len(traces)
+        n_st += sum(len(t['steps']) for t in traces)
+    scs = [c12.gen_random(rnd, k) for k in range(30 if tier == 'quick' else 1200)]
+    for lo in range(0, len(scs), 300):
+        part = scs[lo:lo + 300]
+        traces = c12.run_scenarios(part)
+        c12.judge(v, traces, part, labels={'C16.NoInternalError'})
+        n_tr += len(traces)
+        n_st += sum(len(t['steps']) for t in traces)
+    SEQ_RESULTS.append((v, n_tr, n_st))
+    return []
+
+
 def user_sync_scenarios(tier, seed, tail):
     """USER synchronisation: end_sync with every form of the Master argument (none, nick, full identifier, unknown) on
     every instance, at different rounds."""
@@ -81,6 +112,7 @@ def main(tier, seed, replay=None):
     return cc.run('C16', tier, seed, LABELS, [], e1, ['NoErr'], ['StepsC16'], sim, rnd,
                   n_beh=48 if q else 400, beh_depth=150, n_rnd=50 if q else 500, rnd_steps=300,
                   e1_timeout=600 if q else 1500, inject=True,
-                  extra_scenarios=[user_sync_scenarios, sequencing_runs, cl.hold_distribution_scenarios],
+                  extra_scenarios=[user_sync_scenarios, sequencing_runs, cl.hold_distribution_scenarios,
+                                   conciliation_and_replica_runs],
                   notes=['the object-level partial operations are covered by the other families: every check '
                          'records internal errors of its own runs (C11 err, C17 non-RPCError exceptions, ...)'])
